@@ -27,6 +27,8 @@ import (
 	"github.com/nspcc-dev/neofs-node/verifharness/bubble"
 	"github.com/nspcc-dev/neofs-node/verifharness/c15/crashrig"
 	"github.com/nspcc-dev/neofs-node/verifharness/ev"
+	"github.com/nspcc-dev/neofs-node/verifharness/snap"
+	"github.com/nspcc-dev/neofs-node/verifharness/stor"
 	oid "github.com/nspcc-dev/neofs-sdk-go/object/id"
 	"pgregory.net/rapid"
 )
@@ -121,6 +123,8 @@ func TestC15Crash(t *testing.T) {
 			return m
 		}
 
+		// byte-identical snapshots (same files, same epoch) are verified once
+		seen := map[string]bool{}
 		var ops []crashrig.Op
 		cfgs := fmt.Sprintf("wc=%v cache=%d", cfg.WC, cfg.WCMaxSize)
 		n := rapid.IntRange(2, maxOps).Draw(t, "n")
@@ -141,6 +145,19 @@ func TestC15Crash(t *testing.T) {
 			}
 			prefix := cfgs + " | " + crashrig.OpsString(ops)
 			for k, s := range snaps {
+				dg, err := snap.Digest(stor.BlobDir(s.Dir), stor.MetaPath(s.Dir), stor.WCDir(s.Dir))
+				if err != nil {
+					ev.Inconclusive("C15: digest of %v: %v", s, err)
+				}
+				dg = fmt.Sprintf("%s@%d", dg, s.Epoch)
+				if seen[dg] {
+					// same crash state as an already verified one (typically "before
+					// the first step" == end of the previous operation)
+					os.RemoveAll(s.Dir)
+					rec.Label("crash-point-with-already-verified-state")
+					continue
+				}
+				seen[dg] = true
 				avail, vs := verify(r, w, s)
 				os.RemoveAll(s.Dir)
 				labels := []string{"point:" + pointKind(s.Point), "op:" + op.Kind}
@@ -155,7 +172,7 @@ func TestC15Crash(t *testing.T) {
 				if avail > 0 {
 					labels = append(labels, "metadata-lists-available")
 				}
-				if s.Op == "background-flush" {
+				if (op.Kind == crashrig.KTick || op.Kind == crashrig.KRace) && s.Inside {
 					labels = append(labels, "inside-background-flush")
 				}
 				rec.Case(s.Inside, fmt.Sprintf("%s #%d %s", prefix, k, s.Point), labels...)
